@@ -277,6 +277,8 @@ def factories(ctx: Ctx, rep: Report, wire: Wire):
             rets = returns_of(fn)
             ks = [wire.site_kind(fn, v) if isinstance(v, ast.Call) else None for v in rets]
             ok = bool(rets) and all(k is not None and k[0] == kind for k in ks) and all(res.resolve_call(v, fn).ctor is not None for v in rets)
+            # ... built from this object's bus address and this call's arguments, in this order
+            ok = ok and all([norm(a) for a in v.args] == ["self._comm_addr"] + fn.params[1:] and not v.keywords for v in rets)
             rep.check(ok, "C18.R1", "factory:%s.%s" % (ci.name, name), fn.loc(), "%s.%s constructs a %s command" % (ci.name, name, kind),
                       bad="%s.%s does not return a freshly constructed %s command (returns %s)" % (
                           ci.name, name, kind, "; ".join(norm(v)[:60] if v is not None else "None" for v in rets)))
